@@ -78,6 +78,7 @@ Inductive hop :=
 | HGet (i : nat) (k : keyform)
 | HSet (i : nat) (k : keyform) (r : rhs)
 | HSetValues (i : nat) (v : nd Qc)
+| HSetValuesArr (i j : nat)              (* a.set_values(b) with b a FlodymArray: always refused *)
 | HRawFill (i : nat) (c : Qc).           (* a.values[...] = c : the write-through probe *)
 
 Definition is_basic (s : sel) : bool := match s with SArr _ _ => false | _ => true end.
@@ -164,6 +165,7 @@ Definition step (vr : variant) (h : heap) (o : hop) : heap * outcome :=
       | Err => if set_values_checks_first vr then (h, Raised)
                else (mk_heap (bufs h ++ [dat v]) (upd_list (arrs h) i (mk_aobj (a_dims a) (shp v) (length (bufs h)) (seq 0 (length (dat v))))), Raised)
       end)
+  | HSetValuesArr i j => (h, Raised)
   | HRawFill i c => with_obj i (fun a => (write_back h a (map (fun _ => c) (a_offs a)), Done))
   end.
 
